@@ -492,6 +492,7 @@ class HelicityAmplitudeBuilder:
             sequential_graphs = _perform_combinatorics(transition)
             for graph in sequential_graphs:
                 first_transition = _freeze(graph)
+                self.adapter.register_transition(first_transition)
                 expression = self.__formulate_sequential_decay(first_transition)
                 sequential_expressions.append(expression)
 
